@@ -4,9 +4,12 @@
      prqlc/src/utils/mod.rs      OrMap::or_map
      prqlc/src/sql/gen_query.rs  translate_select_pipeline: offset / limit
      prqlc/src/utils/id_gen.rs   IdGenerator::skip / gen, IdLoader (ids of an RQ handed to rq_to_sql)
+     prqlc/src/semantic/resolver/static_eval.rs  "std.neg" on an integer literal
+     prqlc/src/sql/gen_expr.rs   try_into_window_frame::parse_bound
    "returns Panic" = "the Rust code panics in a build with overflow checks" (what the harness links);
    "returns Fail" = "the Rust code returns Err(_)".  Since commit 18f8c11 the take-range arithmetic is checked
-   (overflow -> Err("take range is too large")): the model below mirrors that code.
+   (overflow -> Err("take range is too large")), since 79f4a51 IdGenerator::skip refuses ids above usize::MAX/2, since
+   222f71a the two negations of an integer literal are checked_neg / unsigned_abs: the models below mirror that code.
    Executable definitions only. *)
 From Coq Require Import List ZArith Bool.
 From PV Require Import Model.Checked.
@@ -102,14 +105,41 @@ Definition bounded_b (B : Z) (b : option bound) : Prop :=
   match b with Some (BInt z) => - B <= z <= B | _ => True end.
 Definition bounded (B : Z) (r : erange) : Prop := bounded_b B (e_start r) /\ bounded_b B (e_end r).
 
-(* ---- IdGenerator ---- *)
-(* fn skip(&mut self, id) { self.next_id = self.next_id.max(id + 1) } *)
-Definition id_skip (next id : Z) : out Z := bind (addus id 1) (fun t => Ret (Z.max next t)).
+(* ---- IdGenerator (utils/id_gen.rs) ---- *)
+(* Since commit 79f4a51 `skip` is fallible:
+     fn skip(&mut self, id: usize) -> Result<()> {
+         if id > usize::MAX / 2 { return Err(Error::new_simple(format!("id {id} is too large"))); }
+         self.next_id = self.next_id.max(id + 1);  Ok(()) }
+   (the `id + 1` is still the unchecked operator: [addus]; the guard is what makes it total) *)
+Definition id_limit : Z := usize_max / 2.
+Definition id_skip (next id : Z) : out Z :=
+  if id >? id_limit then Fail else bind (addus id 1) (fun t => Ret (Z.max next t)).
 (* fn gen(&mut self) { let id = self.next_id; self.next_id += 1; id } *)
 Definition id_gen (next : Z) : out (Z * Z) := bind (addus next 1) (fun n => Ret (next, n)).
-(* IdLoader: skip over every id that occurs in the query *)
+(* IdLoader (fold_cid / fold_table: `self.cid.skip(cid.get())?`): skip over every id that occurs in the query *)
 Fixpoint id_load (next : Z) (ids : list Z) : out Z :=
   match ids with [] => Ret next | i :: t => bind (id_skip next i) (fun n => id_load n t) end.
+(* k ids generated one after the other (the compilation that follows the load) *)
+Fixpoint id_gens (k : nat) (next : Z) : out Z :=
+  match k with O => Ret next | S k' => bind (id_gen next) (fun p => id_gens k' (snd p)) end.
+
+(* ---- unary minus on integer literals ---- *)
+(* semantic/resolver/static_eval.rs, "std.neg" on Literal::Integer(val) (commit 222f71a):
+     if let Some(neg) = val.checked_neg() { return Expr::new(Literal::Integer(neg)); }   -- otherwise left unevaluated
+   Ret (Some n): folded to the literal n; Ret None: the operator stays in the tree *)
+Definition static_neg (v : Z) : out (option Z) := Ret (checked_neg64 v).
+(* sql/gen_expr.rs try_into_window_frame::parse_bound (commit 222f71a):
+     let as_int = unpack_as_int_literal(bound)?;
+     match as_int { 0 => CurrentRow, 1.. => Following(as_int), _ => Preceding(as_int.unsigned_abs()) } *)
+Inductive fbound := CurrentRow | Following (n : Z) | Preceding (n : Z).
+Definition parse_bound (b : bound) : out fbound :=
+  bind (unpack b) (fun z =>
+  Ret (if z =? 0 then CurrentRow else if 1 <=? z then Following z else Preceding (unsigned_abs64 z))).
+(* start_bound / end_bound of the frame: a missing bound is UNBOUNDED *)
+Definition frame_bounds (r : erange) : out (option fbound * option fbound) :=
+  bind (match e_start r with Some b => bind (parse_bound b) (fun x => Ret (Some x)) | None => Ret None end) (fun s =>
+  bind (match e_end r with Some b => bind (parse_bound b) (fun x => Ret (Some x)) | None => Ret None end) (fun e =>
+  Ret (s, e))).
 
 (* ---- Span arithmetic (span.rs Add<usize>/Sub<usize>) ---- *)
 Definition span_add (s e rhs : Z) : out (Z * Z) := bind (addus s rhs) (fun s' => bind (addus e rhs) (fun e' => Ret (s', e'))).
